@@ -130,6 +130,15 @@ def kitchen():
         o = dict(_KITCHEN_OPTS)
         o.update({"inline_definitions": True, "xhtmlOut": False, "breaks": False, "quotes": "<>&\""})
         out.append(C.cfg(p, o, enable=en, linkify="stub"))
+    # html switched off after construction, by each public route (the instance was built with html on)
+    on = {"html": True, "typographer": True, "linkify": True}
+    for route in (["setitem", "html", False], ["setattr", "html", False], ["update", {"html": False}]):
+        out.append(C.cfg("commonmark", on, enable=C.RULE_SW, linkify="stub", post=[["render_first", "<b>x</b>\n\n<div>\n"], route]))
+    out.append(C.cfg("js-default", {"html": True}, post=[["setitem", "html", False]]))
+    # core pipeline rules off one at a time (any rule subset): output must still be renderer-made markup
+    for r in ("inline", "block", "normalize", "linkify", "replacements"):
+        out.append(C.cfg("js-default", {"html": False, "typographer": True}, post=[["core_disable", r]]))
+        out.append(C.cfg("commonmark", {"html": False}, enable=["table"], post=[["core_disable", r]]))
     return out
 
 
@@ -139,7 +148,7 @@ def hood(d):
 
 def bounds(tier):
     th = tier == "thorough"
-    return {"atoms": ATOMS, "L_hood": 3, "L_kitchen": 5 if th else 4, "fills": FILL, "fill_pairs": len(FILL) ** 2 + len(FILL),
+    return {"atoms": ATOMS, "L_hood": "2 (thorough: 3 on the d<=1 neighbourhood)", "L_kitchen": "5/4" if th else "4 on two configurations, 3 on the others", "fills": FILL, "fill_pairs": len(FILL) ** 2 + len(FILL),
             "templates": TEMPLATES, "free_lines_K": 2, "d": 2 if th else 1, "hood_configs": len(hood(2 if th else 1)),
             "kitchen_configs": kitchen()}
 
@@ -151,14 +160,14 @@ def shards(tier):
     H = hood(d)
     step = 6
     for i in range(0, len(H), step):
-        sh.append(("hood", d, i, min(len(H), i + step), 2 if th else 3))
+        sh.append(("hood", d, i, min(len(H), i + step), 2))
     if th:  # L=3 atoms only on the d<=1 hood in thorough (d<=2 hood gets L=2 + templates + lines)
         H1 = hood(1)
         for i in range(0, len(H1), 4):
             sh.append(("hood", 1, i, min(len(H1), i + 4), 3))
     for ki in range(len(kitchen())):
         for f in ATOMS:
-            sh.append(("kitchen", ki, f, 5 if (th and ki < 2) else 4))
+            sh.append(("kitchen", ki, f, (5 if ki < 2 else 4) if th else (4 if ki < 2 else 3)))
         sh.append(("ktempl", ki))
     return sh
 
